@@ -84,6 +84,7 @@ type Explorer struct {
 
 	curModel map[string]uint64
 	evalMemo map[int]uint64
+	decided  map[int]bool
 
 	Res       *JobResult
 	pathIdx   int
@@ -145,6 +146,21 @@ func (ex *Explorer) Decide(c *Term) bool {
 	if c.Op == OpConst {
 		return c.Val != 0
 	}
+	// a condition already decided on this path (hash-consed identity) is free
+	if b, ok := ex.decided[c.ID]; ok {
+		return b
+	}
+	if c.Op == OpNot {
+		if b, ok := ex.decided[c.Args[0].ID]; ok {
+			return !b
+		}
+	}
+	b := ex.decide1(c)
+	ex.decided[c.ID] = b
+	return b
+}
+
+func (ex *Explorer) decide1(c *Term) bool {
 	if ex.replaying() {
 		d := ex.prefix[ex.pos]
 		if d.K != 'b' {
@@ -447,6 +463,7 @@ func (ex *Explorer) Run(res *JobResult, resetAndRun func() (outcome string)) {
 		ex.pathIdx = res.Paths
 		res.Paths++
 		ex.curModel = nil
+		ex.decided = make(map[int]bool)
 		ex.S.Reset()
 		outcome := resetAndRun()
 		if !ex.pathInc && outcome != "dropped" {
